@@ -396,6 +396,11 @@ func (a *APIServer) sendOne(ctx context.Context, get func(string) (*grpc.ClientC
 				if str(sh, "mix") == "distinct" {
 					k = i
 				}
+				if str(sh, "mix") == "with-valid" && i%2 == 0 {
+					// (a path that yields accessible accounts next to the odd one: the request is not dropped early)
+					req.Paths = append(req.Paths, "W1")
+					continue
+				}
 				req.Paths = append(req.Paths, shapePath(str(sh, "path"), k))
 			}
 			var r *pb.ListAccountsResponse
